@@ -95,7 +95,9 @@ def run_impl(case):
     for op in case["prior"]:
         t.set(op[1], op[2])
     v, br = t._get(case["key"])
-    p = SparseMerkleProof(case["key"], v, br)
+    br_arg = list(br)
+    p = SparseMerkleProof(case["key"], v, br_arg)
+    br_arg[:] = [b"\xde" * 32] * len(br_arg)        # the caller reuses its list: the proof must have taken a copy
     outs = [proof_obs(p)]
     aux = []
     for op in case["stream"]:
@@ -108,17 +110,21 @@ def run_impl(case):
             ups = t.delete(k)
         ups2 = ups if tr is None else ups[:tr]
         before = proof_obs(p)
+        ups_arg = list(ups2)
         try:
-            p.update(k, val, ups2)
+            p.update(k, val, ups_arg)
             res = None
         except Exception as e:
             res = C.exc_obs(e, with_attrs=False)
+        ups_arg[:] = [b"\xbe" * 32] * len(ups_arg)          # ... and its list of node hashes
         after = proof_obs(p)
         outs.append([res, after, bytes(t.root_hash)])
         tv, tb = t._get(case["key"])
         if res is not None:
             # rejected: the proof is (must be) unchanged and now stale; re-create it from the tree
-            p = SparseMerkleProof(case["key"], tv, tb)
+            tb_arg = list(tb)
+            p = SparseMerkleProof(case["key"], tv, tb_arg)
+            tb_arg[:] = [b"\xad" * 32] * len(tb_arg)
         aux.append({"before": before, "after": after, "res": res, "tree_value": bytes(tv),
                     "tree_branch": [bytes(x) for x in tb], "root": bytes(t.root_hash), "full_len": len(ups)})
     return outs, aux
